@@ -481,6 +481,28 @@ TARGETS = [
                   patterns={"ErrorKind::Version": "ErrKind.version", "PackKind::Container": "PackKind.container"},
                   patterns_noargs=["ErrorKind::Version"],
                   ignore_lets=["buffer_reader", "end_reader"], ignore_stmts=["reader.create_stream(", "buffer_reader.reverse("])),
+    # ---- reader: Container::_get_pack (unknown id / missing pack / found pack)
+    dict(name="containerGetPackInner", group="Lookup", file="src/reader/jubako.rs", fn="_get_pack",
+         cfg=dict(params=[("getInfo", "Nat → Option I"), ("locate", "I → Outcome (Option R)"), ("openContent", "R → Outcome P"), ("pack_id", N)],
+                  ret="Option (Sum I P)", outcome=True, stateful=False, implicit="{I R P : Type}",
+                  exprs={"self.manifest_pack.get_content_pack_info(pack_id)": "(getInfo pack_id)", "pack_info.clone()": "pack_info"},
+                  try_exprs={"self.locator.locate(pack_info.uuid, &pack_info.pack_location)": "locate pack_info",
+                             "MayMissPack::FOUND(ContentPack::new(r)).transpose()": "((openContent r).bind fun p => Outcome.ok (Sum.inr p))"},
+                  funcs={"MayMissPack::MISSING": "(Sum.inl {0})"})),
+    dict(name="containerPackNew", group="Open", file="src/reader/container_pack.rs", fn="new", after=r"impl ContainerPack",
+         cfg=dict(params=[("locBlock", N), ("packHeader", "Outcome PackHeader"), ("containerHeader", "Outcome ContainerHeader"),
+                          ("locatorAt", "Nat → Outcome PackLocator"), ("cutReader", "Nat → Nat → Outcome R")],
+                  ret="(List Bytes × List (Bytes × R))", outcome=True, stateful=False, implicit="{R : Type}",
+                  try_exprs={"reader.parse_block_at(Offset::zero())": "packHeader",
+                             "reader.parse_block_at(Offset::from(PackHeader::BLOCK_SIZE))": "containerHeader"},
+                  try_methods={("reader", "parse_block_at"): "locatorAt {0}", ("reader", "cut"): "cutReader {0} {1}"},
+                  paths={"PackKind::Container": "PackKind.container", "PackLocator::BLOCK_SIZE": "locBlock"},
+                  methods={".magic": "({recv}).kind", ".pack_locators_pos": "({recv}).locatorsPos", ".pack_count": "({recv}).packCount",
+                           ".pack_pos": "({recv}).pos", ".pack_size": "({recv}).size", ".uuid": "({recv}).uuid", "into_usize": "{recv}"},
+                  funcs={"Vec::with_capacity": "[]", "HashMap::with_capacity": "[]"},
+                  struct_as={"Self": ["packs_uuid", "packs"]}, map_vars=["packs"],
+                  for_counts={"header.pack_count": "(header).packCount"},
+                  loop_vars=[("pack_offset", "Nat"), ("packs_uuid", "List Bytes"), ("packs", "List (Bytes × R)")])),
 ]
 
 
@@ -679,7 +701,7 @@ def apply_enums(t):
     return "\n".join(decls)
 
 
-GROUP_IMPORTS = {"Open": ["JubakoModel.Model.Pack"], "Parse": ["JubakoModel.Model.DirLayout", "JubakoModel.Generated.FuncsBytes"], "Entry": ["JubakoModel.Generated.FuncsBytes", "JubakoModel.Generated.FuncsDir"], "Stats": ["JubakoModel.Generated.FuncsBytes", "JubakoModel.Generated.FuncsDir"], "Lookup": ["JubakoModel.Model.Bytes"], "Fs": ["JubakoModel.Model.BasicCreatorFs"], "Sync": ["JubakoModel.Model.SyncVec"], "Pipe": ["JubakoModel.Model.Pipeline"], "Proto": ["JubakoModel.Model.FileCursor"], "Search": ["JubakoModel.Generated.FuncsBytes"], "Content": ["JubakoModel.Generated.FuncsBytes"], "Dir": ["JubakoModel.Generated.FuncsBytes", "JubakoModel.Model.Bytes"]}
+GROUP_IMPORTS = {"Open": ["JubakoModel.Model.Container"], "Parse": ["JubakoModel.Model.DirLayout", "JubakoModel.Generated.FuncsBytes"], "Entry": ["JubakoModel.Generated.FuncsBytes", "JubakoModel.Generated.FuncsDir"], "Stats": ["JubakoModel.Generated.FuncsBytes", "JubakoModel.Generated.FuncsDir"], "Lookup": ["JubakoModel.Model.Bytes"], "Fs": ["JubakoModel.Model.BasicCreatorFs"], "Sync": ["JubakoModel.Model.SyncVec"], "Pipe": ["JubakoModel.Model.Pipeline"], "Proto": ["JubakoModel.Model.FileCursor"], "Search": ["JubakoModel.Generated.FuncsBytes"], "Content": ["JubakoModel.Generated.FuncsBytes"], "Dir": ["JubakoModel.Generated.FuncsBytes", "JubakoModel.Model.Bytes"]}
 GROUP_PREAMBLE = {"Parse": """/- semantics of the effects of the parsing code (trusted, DESIGN.md §12.7): `unwrap()` of an `Err` / `None` is a
    panic; `read_isized(n)` reads `n` bytes little-endian and sign-extends (`LE::read_int`) -/
 def unwrapped {α : Type} : Outcome α → Outcome α
